@@ -206,4 +206,13 @@ theorem splitOn_append (sep : Char) (w rest : Str) (h : sep ∉ w) :
 theorem dollar_not_cisco (c : Char) (h : isCiscoChar c = true) : c ≠ '$' := by
   intro e; subst e; revert h; decide
 
+theorem fmt_split (k salt h : Str) (hk : '$' ∉ k) (hs : '$' ∉ salt) (hh : '$' ∉ h) :
+    splitOn '$' (fmt k salt h) = [[], k, salt, h] := by
+  have e : fmt k salt h = [] ++ '$' :: (k ++ '$' :: (salt ++ '$' :: h)) := by simp [fmt]
+  rw [e, splitOn_append _ _ _ (by simp), splitOn_append _ _ _ hk, splitOn_append _ _ _ hs,
+    splitOn_no_sep _ _ hh]
+
+theorem no_dollar (s : Str) (h : ∀ c ∈ s, isCiscoChar c = true) : '$' ∉ s :=
+  fun hm => dollar_not_cisco _ (h _ hm) rfl
+
 end Ccp.Pwd
